@@ -64,6 +64,10 @@ def run(ctx, progs):
     ctx.rule("ZST1", "no size_of/align_of/offset_from/needs_drop/byte arithmetic")
     ctx.rule("LEN1", "size stores of reviewed shape; no Mul/Shl/Div on lengths")
     ctx.rule("ARITH1", "no Add/Mul on caller-supplied indices/lengths (usize::MAX arguments) outside reviewed sites")
+    for r_, t_ in (("RIDX1", "implicit range-index/split checks discharged"), ("DRNVIEW1", "un-yielded drain views bounded by iter"), ("DRAINIT1", "drain hands out read(i) of the produced index"),
+                   ("ORD1", "std lexicographic comparison"), ("HASH1", "len + one hash per element"), ("DBG1", "list formatting"), ("BASE2", "compared pieces partition both sequences"),
+                   ("BASE3", "split points are differences of first-segment lengths"), ("TWIN", "shared/mutable range views are one algorithm")):
+        ctx.rule(r_, t_ + " (decided for symbolic N and T)")
     ctx.rule("SUB1", "REQUIRES(b <= a) of every usize subtraction a - b discharged by guard facts / INV / callers (transparent operands)")
     for cfg, prog in progs.items():
         pos1(ctx, prog, cfg)
@@ -77,6 +81,20 @@ def run(ctx, progs):
         from .. import subrule
 
         subrule.report(ctx, prog, cfg)
+        subrule.report(ctx, prog, cfg, "RIDX1", floor=25)
+        # "the same sequence semantics as for ordinary elements": the rules below are decided for a symbolic capacity
+        # and a symbolic element type, so their verdict covers N = usize::MAX and zero-sized T as it covers N = 4: the
+        # number of destructor runs of a drain (DRNVIEW1/DRAINIT1), the results of comparison (ORD1/HASH1/BASE2),
+        # the lengths/elements selected by the range views (TWIN)
+        from .. import drainrules, shapes
+        from . import c08, c13
+
+        drainrules.drnview1(ctx, prog, cfg)
+        drainrules.drainit1(ctx, prog, cfg)
+        c13.ord_hash_dbg(ctx, prog, cfg)
+        c13.base2(ctx, prog, cfg)
+        for a, b in c08.PAIRS:
+            shapes.twin(ctx, "TWIN", prog, a, b, cfg, what="the shared and the mutable form of one view")
 
 
 def pos1(ctx, prog, cfg):
